@@ -767,3 +767,71 @@ func (c *Ctx) noCredentialRestore(rule string) {
 	}
 	r.Extra["credential_list_puts"] = n
 }
+
+// deferredStorageError: a function that talks to the storage layer and
+// returns its error is not called through `defer` (or `go`), where the error
+// has nowhere to go: the request reports success for a write that failed.
+func (c *Ctx) deferredStorageError(rule string) {
+	r := c.R
+	touches := map[*ssa.Function]int{} // 0 unknown, 1 no, 2 yes
+	var storage func(f *ssa.Function, d int) bool
+	storage = func(f *ssa.Function, d int) bool {
+		if f == nil || !c.inRepo(f) || d > 3 {
+			return false
+		}
+		if v := touches[f]; v != 0 {
+			return v == 2
+		}
+		touches[f] = 1
+		for _, call := range Calls(f) {
+			cc := call.Common()
+			if cc.IsInvoke() && strings.HasSuffix(cc.Value.Type().String(), "Storer") {
+				touches[f] = 2
+				return true
+			}
+			if g := StaticCallee(call); g != nil && storage(g, d+1) {
+				touches[f] = 2
+				return true
+			}
+		}
+		return false
+	}
+	n := 0
+	for _, fn := range c.P.Funcs {
+		if !c.inRepo(fn) || strings.HasSuffix(pkgOf(fn), "/mocks") {
+			continue
+		}
+		for _, b := range fn.Blocks {
+			for _, in := range b.Instrs {
+				var cc *ssa.CallCommon
+				how := ""
+				switch x := in.(type) {
+				case *ssa.Defer:
+					cc, how = &x.Call, "defer"
+				case *ssa.Go:
+					cc, how = &x.Call, "go"
+				default:
+					continue
+				}
+				n++
+				g := cc.StaticCallee()
+				invokeStorer := cc.IsInvoke() && strings.HasSuffix(cc.Value.Type().String(), "Storer")
+				if g == nil && !invokeStorer {
+					continue
+				}
+				sig := cc.Signature()
+				if sig.Results().Len() == 0 || !IsErrorType(sig.Results().At(sig.Results().Len()-1).Type()) {
+					continue
+				}
+				if invokeStorer || storage(g, 0) {
+					what := "a storage call"
+					if g != nil {
+						what = FuncName(g)
+					}
+					r.Bad(rule, FuncName(fn), how+" "+what, posf(c, in), what+" returns the storage layer's error and is started with `"+how+"`, which discards it: the caller reports success although the write (a revocation, a clean-up) failed")
+				}
+			}
+		}
+	}
+	r.Extra["defer_go_statements"] = n
+}
